@@ -4,6 +4,7 @@ import importlib
 # property id -> (gen file name, module holding TARGETS) list
 GEN = {
     'C01': [('Gen_C01', 'props.t_C01')],
+    'C02': [('Gen_C02', 'props.t_C02')],
     'C08': [('Gen_C08', 'props.t_C08')],
     'C09': [('Gen_C09', 'props.t_C09')],
     'C10': [('Gen_C10', 'props.t_C10')],
